@@ -1,4 +1,774 @@
+(* Lemmas about the dataset codec model (Disc/CodecModel.v). *)
 From Coq Require Import List ZArith NArith Bool Lia.
 From PLV Require Import Disc.CodecModel.
 Import ListNotations.
-Lemma stub : encode VNone = encode VNone. Proof. reflexivity. Qed.
+Open Scope Z_scope.
+
+(* ---------------------------------------------------------------- induction principle for nested values *)
+Section ValInd.
+  Variable P : val -> Prop.
+  Hypothesis HNone : P VNone.
+  Hypothesis HBool : forall b, P (VBool b).
+  Hypothesis HInt : forall z, P (VInt z).
+  Hypothesis HFloat : forall m e, P (VFloat m e).
+  Hypothesis HComplex : forall a b c d, P (VComplex a b c d).
+  Hypothesis HNp : forall d n, P (VNp d n).
+  Hypothesis HStr : forall s, P (VStr s).
+  Hypothesis HArray : forall i d s x, P (VArray i d s x).
+  Hypothesis HList : forall l, Forall P l -> P (VList l).
+  Hypothesis HTuple : forall l, Forall P l -> P (VTuple l).
+  Hypothesis HDict : forall l, Forall (fun kv => P (snd kv)) l -> P (VDict l).
+  Hypothesis HDataset : forall l, Forall (fun kv => P (snd kv)) l -> P (VDataset l).
+  Hypothesis HOpaque : forall i, P (VOpaque i).
+
+  Fixpoint val_ind2 (v : val) : P v :=
+    let fix go (l : list val) : Forall P l :=
+      match l with [] => Forall_nil _ | x :: r => Forall_cons _ (val_ind2 x) (go r) end in
+    let fix gok (l : list (name * val)) : Forall (fun kv => P (snd kv)) l :=
+      match l with [] => Forall_nil _ | kv :: r => Forall_cons kv (val_ind2 (snd kv)) (gok r) end in
+    match v with
+    | VNone => HNone | VBool b => HBool b | VInt z => HInt z | VFloat m e => HFloat m e
+    | VComplex a b c d => HComplex a b c d | VNp d n => HNp d n | VStr s => HStr s
+    | VArray i d s x => HArray i d s x
+    | VList l => HList l (go l) | VTuple l => HTuple l (go l)
+    | VDict l => HDict l (gok l) | VDataset l => HDataset l (gok l)
+    | VOpaque i => HOpaque i
+    end.
+End ValInd.
+
+(* ---------------------------------------------------------------- names *)
+Lemma list_eqb_Z_eq : forall a b : list Z, list_eqb Z.eqb a b = true <-> a = b.
+Proof.
+  induction a as [|x r IH]; destruct b as [|y s]; simpl; split; intro H; try congruence; try discriminate.
+  - apply andb_true_iff in H as [H1 H2]. apply Z.eqb_eq in H1. apply IH in H2. congruence.
+  - inversion H; subst. rewrite Z.eqb_refl. simpl. apply IH. reflexivity.
+Qed.
+
+Lemma name_eqb_eq : forall a b, name_eqb a b = true <-> a = b.
+Proof.
+  destruct a as [x|x], b as [y|y]; simpl; split; intro H; try discriminate.
+  - apply N.eqb_eq in H. congruence.
+  - inversion H. apply N.eqb_refl.
+  - apply list_eqb_Z_eq in H. congruence.
+  - inversion H. apply list_eqb_Z_eq. reflexivity.
+Qed.
+
+Lemma name_eqb_refl : forall a, name_eqb a a = true.
+Proof. intro a. apply name_eqb_eq. reflexivity. Qed.
+
+Lemma name_eqb_neq : forall a b, a <> b -> name_eqb a b = false.
+Proof. intros a b H. destruct (name_eqb a b) eqn:E; auto. apply name_eqb_eq in E. contradiction. Qed.
+
+Lemma name_eqb_sym : forall a b, name_eqb a b = name_eqb b a.
+Proof.
+  intros a b. destruct (name_eqb a b) eqn:E.
+  - apply name_eqb_eq in E. subst. symmetry. apply name_eqb_refl.
+  - destruct (name_eqb b a) eqn:F; auto. apply name_eqb_eq in F. subst. rewrite name_eqb_refl in E. discriminate.
+Qed.
+
+(* ---------------------------------------------------------------- ordered association lists *)
+Section AssocLemmas.
+  Context {A : Type}.
+  Implicit Types l m : list (name * A).
+
+  Lemma lookup_app : forall k l m,
+    lookup k (l ++ m) = match lookup k l with Some x => Some x | None => lookup k m end.
+  Proof.
+    induction l as [|[k' x] r IH]; intro m; simpl; auto.
+    destruct (name_eqb k k'); auto.
+  Qed.
+
+  Lemma has_app : forall k l m, has k (l ++ m) = has k l || has k m.
+  Proof. intros. unfold has. rewrite lookup_app. destruct (lookup k l); auto. Qed.
+
+  Lemma has_cons : forall k k' (x : A) l, has k ((k', x) :: l) = name_eqb k k' || has k l.
+  Proof. intros. unfold has. simpl. destruct (name_eqb k k'); auto. Qed.
+
+  Lemma remove_notin : forall k l, has k l = false -> remove k l = l.
+  Proof.
+    induction l as [|[k' x] r IH]; simpl; auto. intro H.
+    rewrite has_cons in H. apply orb_false_iff in H as [H1 H2]. rewrite H1. f_equal. auto.
+  Qed.
+
+  Lemma lookup_remove_same : forall k l, lookup k (remove k l) = None.
+  Proof.
+    induction l as [|[k' x] r IH]; simpl; auto.
+    destruct (name_eqb k k') eqn:E; auto. simpl. rewrite E. auto.
+  Qed.
+
+  Lemma lookup_remove_other : forall k k' l, k <> k' -> lookup k (remove k' l) = lookup k l.
+  Proof.
+    induction l as [|[k0 x] r IH]; simpl; auto. intro H.
+    destruct (name_eqb k' k0) eqn:E.
+    - apply name_eqb_eq in E. subst. rewrite (name_eqb_neq k k0) by auto. auto.
+    - simpl. destruct (name_eqb k k0); auto.
+  Qed.
+
+  Lemma lookup_put_same : forall k (x : A) l, lookup k (put k x l) = Some x.
+  Proof. intros. unfold put. rewrite lookup_app, lookup_remove_same. simpl. rewrite name_eqb_refl. auto. Qed.
+
+  Lemma lookup_put_other : forall k k' (x : A) l, k <> k' -> lookup k (put k' x l) = lookup k l.
+  Proof.
+    intros. unfold put. rewrite lookup_app, lookup_remove_other by auto.
+    destruct (lookup k l); auto. simpl. rewrite name_eqb_neq; auto.
+  Qed.
+
+  Lemma put_notin : forall k (x : A) l, has k l = false -> put k x l = l ++ [(k, x)].
+  Proof. intros. unfold put. rewrite remove_notin; auto. Qed.
+
+  Lemma lookup_snoc_other : forall k k' (x : A) l, k <> k' -> lookup k (l ++ [(k', x)]) = lookup k l.
+  Proof. intros. rewrite lookup_app. simpl. rewrite name_eqb_neq by auto. destruct (lookup k l); auto. Qed.
+
+  Lemma lookup_snoc_same : forall k (x : A) l, has k l = false -> lookup k (l ++ [(k, x)]) = Some x.
+  Proof.
+    intros k x l H. rewrite lookup_app. unfold has in H. destruct (lookup k l); try discriminate.
+    simpl. rewrite name_eqb_refl. reflexivity.
+  Qed.
+
+  Lemma has_snoc_other : forall k k' (x : A) l, k <> k' -> has k (l ++ [(k', x)]) = has k l.
+  Proof. intros. unfold has. rewrite lookup_snoc_other; auto. Qed.
+
+  Lemma has_snoc_same : forall k (x : A) l, has k (l ++ [(k, x)]) = true.
+  Proof. intros. rewrite has_app, has_cons, name_eqb_refl. simpl. apply orb_true_r. Qed.
+
+  Lemma has_put_other : forall k k' (x : A) l, k <> k' -> has k (put k' x l) = has k l.
+  Proof. intros. unfold has. rewrite lookup_put_other; auto. Qed.
+End AssocLemmas.
+
+Lemma lookup_smap : forall {A B} (f : A -> B) k (l : list (name * A)),
+  lookup k (smap f l) = option_map f (lookup k l).
+Proof.
+  induction l as [|[k' x] r IH]; simpl; auto. destruct (name_eqb k k'); auto.
+Qed.
+
+Lemma has_smap : forall {A B} (f : A -> B) k (l : list (name * A)), has k (smap f l) = has k l.
+Proof. intros. unfold has. rewrite lookup_smap. destruct (lookup k l); auto. Qed.
+
+Lemma remove_smap : forall {A B} (f : A -> B) k (l : list (name * A)),
+  remove k (smap f l) = smap f (remove k l).
+Proof.
+  induction l as [|[k' x] r IH]; simpl; auto. destruct (name_eqb k k'); simpl; auto. f_equal. auto.
+Qed.
+
+Lemma smap_app : forall {A B} (f : A -> B) (l m : list (name * A)), smap f (l ++ m) = smap f l ++ smap f m.
+Proof. intros. unfold smap. apply map_app. Qed.
+
+Lemma put_smap : forall {A B} (f : A -> B) k x (l : list (name * A)),
+  put k (f x) (smap f l) = smap f (put k x l).
+Proof. intros. unfold put. rewrite remove_smap, smap_app. reflexivity. Qed.
+
+Lemma nodupb_smap : forall {A B} (f : A -> B) (l : list (name * A)), nodupb (smap f l) = nodupb l.
+Proof.
+  induction l as [|[k x] r IH]; simpl; auto. fold (smap f r). rewrite has_smap, IH. reflexivity.
+Qed.
+
+Lemma smap_smap : forall {A B C} (f : A -> B) (g : B -> C) (l : list (name * A)),
+  smap g (smap f l) = smap (fun x => g (f x)) l.
+Proof. intros. unfold smap. rewrite map_map. reflexivity. Qed.
+
+Lemma smap_ext_Forall : forall {A B} (f g : A -> B) (l : list (name * A)),
+  Forall (fun kv => f (snd kv) = g (snd kv)) l -> smap f l = smap g l.
+Proof.
+  intros A B f g l H. induction H as [|[k x] r H1 H2 IH]; simpl; auto. simpl in H1. rewrite H1. f_equal. exact IH.
+Qed.
+
+Lemma map_ext_Forall : forall {A B} (f g : A -> B) (l : list A),
+  Forall (fun x => f x = g x) l -> map f l = map g l.
+Proof. intros A B f g l H. induction H; simpl; auto. congruence. Qed.
+
+(* ---------------------------------------------------------------- list / tuple layout *)
+Lemma list_extend_spec : forall ns ch,
+  list_extend ch ns = ch ++ tuple_fill (N.of_nat (length ch)) ns.
+Proof.
+  induction ns as [|n r IH]; intro ch; simpl.
+  - rewrite app_nil_r. reflexivity.
+  - rewrite IH. rewrite <- app_assoc. simpl. rewrite app_length. simpl.
+    replace (N.of_nat (length ch + 1)) with (N.succ (N.of_nat (length ch))) by lia. reflexivity.
+Qed.
+
+Lemma list_extend_nil : forall ns, list_extend [] ns = tuple_fill 0%N ns.
+Proof. intro ns. rewrite list_extend_spec. reflexivity. Qed.
+
+Lemma smap_tuple_fill : forall (f : node -> option val) ns i,
+  smap f (tuple_fill i ns) =
+  (fix fill (i : N) (l : list (option val)) := match l with [] => [] | x :: r => (KIdx i, x) :: fill (N.succ i) r end)
+    i (map f ns).
+Proof. induction ns as [|n r IH]; intro i; simpl; auto. f_equal. apply IH. Qed.
+
+Fixpoint fillS (i : N) (vs : list val) : list (name * option val) :=
+  match vs with [] => [] | v :: r => (KIdx i, Some v) :: fillS (N.succ i) r end.
+
+Lemma smap_decode_fill : forall (l : list val) (g : val -> val) i,
+  Forall (fun x => decode (encode x) = Some (g x)) l ->
+  smap decode (tuple_fill i (map encode l)) = fillS i (map g l).
+Proof.
+  intros l g i H. revert i. induction H as [|x r H1 H2 IH]; intro i; simpl; auto.
+  rewrite H1. f_equal. apply IH.
+Qed.
+
+Lemma length_fillS : forall vs i, length (fillS i vs) = length vs.
+Proof. induction vs; intro i; simpl; auto. Qed.
+
+Lemma lookup_fillS_lt : forall vs i j, (j < i)%N -> lookup (KIdx j) (fillS i vs) = None.
+Proof.
+  induction vs as [|v r IH]; intros i j H; simpl; auto.
+  destruct (N.eqb j i) eqn:E. { apply N.eqb_eq in E. lia. }
+  apply IH. lia.
+Qed.
+
+Lemma collect_fill : forall vs i pre,
+  (forall j, (i <= j)%N -> lookup (KIdx j) pre = None) ->
+  collect_idx (pre ++ fillS i vs) (seqN i (length vs)) = Some vs.
+Proof.
+  induction vs as [|v r IH]; intros i pre Hpre; simpl; auto.
+  rewrite lookup_app. rewrite Hpre by lia. simpl. rewrite N.eqb_refl.
+  specialize (IH (N.succ i) (pre ++ [(KIdx i, Some v)])).
+  rewrite <- app_assoc in IH. simpl in IH. rewrite IH; auto.
+  intros j Hj. rewrite lookup_app. rewrite Hpre by lia. simpl.
+  destruct (N.eqb j i) eqn:E; auto. apply N.eqb_eq in E. lia.
+Qed.
+
+Lemma collect_fill0 : forall vs, collect_idx (fillS 0%N vs) (seqN 0%N (length (fillS 0%N vs))) = Some vs.
+Proof. intro vs. rewrite length_fillS. apply (collect_fill vs 0%N []). intros; reflexivity. Qed.
+
+(* ---------------------------------------------------------------- dict layout *)
+Lemma dict_update_nodup : forall (kvs ch : list (name * node)),
+  nodupb kvs = true -> (forall k, has k kvs = true -> has k ch = false) ->
+  dict_update ch kvs = ch ++ kvs.
+Proof.
+  induction kvs as [|[k n] r IH]; intros ch Hnd Hdis; simpl.
+  - rewrite app_nil_r. reflexivity.
+  - simpl in Hnd. apply andb_true_iff in Hnd as [Hk Hr]. apply negb_true_iff in Hk.
+    rewrite put_notin by (apply Hdis; rewrite has_cons, name_eqb_refl; reflexivity).
+    rewrite IH; auto.
+    + rewrite <- app_assoc. reflexivity.
+    + intros k' Hk'. rewrite has_app, has_cons. unfold has at 2. simpl.
+      rewrite (Hdis k') by (rewrite has_cons, Hk', orb_true_r; reflexivity). simpl.
+      destruct (name_eqb k' k) eqn:E; auto. apply name_eqb_eq in E. subst. congruence.
+Qed.
+
+Lemma dict_update_nil : forall kvs, nodupb kvs = true -> dict_update [] kvs = kvs.
+Proof. intros. rewrite dict_update_nodup; auto. Qed.
+
+Lemma collect_kv_some : forall (l : list (name * val)),
+  collect_kv (smap (@Some val) l) = Some l.
+Proof. induction l as [|[k v] r IH]; simpl; auto. fold (smap (@Some val) r). rewrite IH. reflexivity. Qed.
+
+(* ---------------------------------------------------------------- decode (encode v) *)
+Lemma forallb_Forall_wf : forall (l : list val) (Q : val -> Prop),
+  Forall (fun x => wf x = true -> Q x) l -> forallb wf l = true -> Forall Q l.
+Proof.
+  intros l Q H. induction H as [|x r H1 H2 IH]; simpl; intro W; constructor;
+    apply andb_true_iff in W as [W1 W2]; auto.
+Qed.
+
+Lemma forallb_Forall_wfkv : forall (l : list (name * val)) (Q : val -> Prop),
+  Forall (fun kv => wf (snd kv) = true -> Q (snd kv)) l ->
+  forallb (fun kv => wf (snd kv)) l = true -> Forall (fun kv => Q (snd kv)) l.
+Proof.
+  intros l Q H. induction H as [|x r H1 H2 IH]; simpl; intro W; constructor;
+    apply andb_true_iff in W as [W1 W2]; auto.
+Qed.
+
+Lemma smap_decode_encode : forall (l : list (name * val)),
+  Forall (fun kv => decode (encode (snd kv)) = Some (norm (snd kv))) l ->
+  smap decode (smap encode l) = smap (@Some val) (smap norm l).
+Proof.
+  intros l H. rewrite !smap_smap. apply smap_ext_Forall. exact H.
+Qed.
+
+Lemma decode_encode_wf : forall v, wf v = true -> decode (encode v) = Some (norm v).
+Proof.
+  induction v using val_ind2; intro W; try reflexivity.
+  - destruct d; reflexivity.
+  - (* list *) cbn [encode decode norm a_tid at_]. rewrite list_extend_nil.
+    simpl in W. pose proof (forallb_Forall_wf l (fun x => decode (encode x) = Some (norm x)) H W) as F.
+    rewrite (smap_decode_fill l norm 0%N F). rewrite collect_fill0. reflexivity.
+  - (* tuple *) cbn [encode decode norm a_tid at_].
+    simpl in W. pose proof (forallb_Forall_wf l (fun x => decode (encode x) = Some (norm x)) H W) as F.
+    rewrite (smap_decode_fill l norm 0%N F). rewrite collect_fill0. reflexivity.
+  - (* dict *) cbn [encode decode norm a_tid at_].
+    simpl in W. apply andb_true_iff in W as [W1 W2].
+    rewrite dict_update_nil by (rewrite nodupb_smap; exact W1).
+    rewrite smap_decode_encode by (exact (forallb_Forall_wfkv l (fun x => decode (encode x) = Some (norm x)) H W2)).
+    rewrite collect_kv_some. reflexivity.
+  - (* dataset *) cbn [encode decode norm a_tid at_].
+    simpl in W. apply andb_true_iff in W as [W1 W2].
+    rewrite smap_decode_encode by (exact (forallb_Forall_wfkv l (fun x => decode (encode x) = Some (norm x)) H W2)).
+    rewrite collect_kv_some. reflexivity.
+Qed.
+
+(* ---------------------------------------------------------------- the view is preserved, norm stabilises *)
+Lemma pyview_norm : forall v, pyview (norm v) = pyview v.
+Proof.
+  induction v using val_ind2; try reflexivity.
+  - destruct d; reflexivity.
+  - cbn [norm pyview]. f_equal. rewrite map_map. apply map_ext_Forall. exact H.
+  - cbn [norm pyview]. f_equal. rewrite map_map. apply map_ext_Forall. exact H.
+  - cbn [norm pyview]. f_equal. rewrite smap_smap. apply smap_ext_Forall. exact H.
+  - cbn [norm pyview]. f_equal. rewrite smap_smap. apply smap_ext_Forall. exact H.
+Qed.
+
+Lemma norm_stable : forall v, norm (norm (norm v)) = norm (norm v).
+Proof.
+  induction v using val_ind2; try reflexivity.
+  - destruct d; reflexivity.
+  - cbn [norm]. f_equal. rewrite !map_map. apply map_ext_Forall. exact H.
+  - cbn [norm]. f_equal. rewrite !map_map. apply map_ext_Forall. exact H.
+  - cbn [norm]. f_equal. rewrite !smap_smap. apply smap_ext_Forall. exact H.
+  - cbn [norm]. f_equal. rewrite !smap_smap. apply smap_ext_Forall. exact H.
+Qed.
+
+Lemma wf_norm : forall v, wf v = true -> wf (norm v) = true.
+Proof.
+  induction v using val_ind2; intro W; try reflexivity.
+  - destruct d; reflexivity.
+  - cbn [norm wf] in *. rewrite forallb_forall in *. intros x Hx. apply in_map_iff in Hx as [y [E Hy]]. subst.
+    rewrite Forall_forall in H. apply H; auto.
+  - cbn [norm wf] in *. rewrite forallb_forall in *. intros x Hx. apply in_map_iff in Hx as [y [E Hy]]. subst.
+    rewrite Forall_forall in H. apply H; auto.
+  - cbn [norm wf] in *. apply andb_true_iff in W as [W1 W2]. rewrite nodupb_smap, W1. simpl.
+    rewrite forallb_forall in *. intros x Hx. apply in_map_iff in Hx as [y [E Hy]]. subst. simpl.
+    rewrite Forall_forall in H. apply H; auto.
+  - cbn [norm wf] in *. apply andb_true_iff in W as [W1 W2]. rewrite nodupb_smap, W1. simpl.
+    rewrite forallb_forall in *. intros x Hx. apply in_map_iff in Hx as [y [E Hy]]. subst. simpl.
+    rewrite Forall_forall in H. apply H; auto.
+Qed.
+
+(* the kind of a value and the type id written for it *)
+Inductive kind := KNone | KScalar | KString | KArray | KList | KTuple | KDict | KDataset | KOpaque.
+Definition kind_of (v : val) : kind :=
+  match v with
+  | VNone => KNone
+  | VBool _ | VInt _ | VFloat _ _ | VComplex _ _ _ _ => KScalar
+  | VNp DBool _ => KArray
+  | VNp _ _ => KScalar
+  | VStr _ => KString | VArray _ _ _ _ => KArray | VList _ => KList | VTuple _ => KTuple
+  | VDict _ => KDict | VDataset _ => KDataset | VOpaque _ => KOpaque
+  end.
+Definition node_kind (n : node) : kind :=
+  match n with
+  | NOpaque _ => KOpaque
+  | NGroup a _ | NData a _ =>
+      match a_tid a with
+      | TNone => KNone | TScalar => KScalar | TString => KString | TArray => KArray | TList => KList
+      | TTuple => KTuple | TDict => KDict | TDataset => KDataset
+      end
+  end.
+
+Lemma encode_kind : forall v, node_kind (encode v) = kind_of v.
+Proof. destruct v; try reflexivity. destruct d; reflexivity. Qed.
+
+(* ---------------------------------------------------------------- injectivity *)
+Lemma tuple_fill_inj : forall a b i, tuple_fill i a = tuple_fill i b -> a = b.
+Proof.
+  induction a as [|x r IH]; destruct b as [|y s]; simpl; intros i H; try discriminate; auto.
+  inversion H. f_equal. eapply IH; eauto.
+Qed.
+
+Lemma map_inj_Forall : forall {A B} (f : A -> B) (l m : list A),
+  Forall (fun x => forall y, f x = f y -> x = y) l -> map f l = map f m -> l = m.
+Proof.
+  intros A B f l m H. revert m. induction H as [|x r H1 H2 IH]; destruct m as [|y s]; simpl; intro E; try discriminate; auto.
+  inversion E. f_equal; auto.
+Qed.
+
+Lemma smap_inj_Forall : forall {A B} (f : A -> B) (l m : list (name * A)),
+  Forall (fun kv => forall y, f (snd kv) = f y -> snd kv = y) l -> smap f l = smap f m -> l = m.
+Proof.
+  intros A B f l m H. revert m. induction H as [|[k x] r H1 H2 IH]; destruct m as [|[k' y] s]; simpl; intro E; try discriminate; auto.
+  inversion E. subst. simpl in H1. f_equal; auto. f_equal; auto.
+Qed.
+
+Lemma map_encode_inj : forall (l m : list val),
+  Forall (fun x => forall y, wf x = true -> wf y = true -> encode x = encode y -> x = y) l ->
+  forallb wf l = true -> forallb wf m = true -> map encode l = map encode m -> l = m.
+Proof.
+  intros l m H. revert m. induction H as [|x r H1 H2 IH]; destruct m as [|y s]; simpl; intros Wl Wm E;
+    try discriminate; auto.
+  apply andb_true_iff in Wl as [? ?]. apply andb_true_iff in Wm as [? ?]. inversion E. f_equal; auto.
+Qed.
+
+Lemma smap_encode_inj : forall (l m : list (name * val)),
+  Forall (fun kv => forall y, wf (snd kv) = true -> wf y = true -> encode (snd kv) = encode y -> snd kv = y) l ->
+  forallb (fun kv => wf (snd kv)) l = true -> forallb (fun kv => wf (snd kv)) m = true ->
+  smap encode l = smap encode m -> l = m.
+Proof.
+  intros l m H. revert m. induction H as [|[k x] r H1 H2 IH]; destruct m as [|[k' y] s]; simpl; intros Wl Wm E;
+    try discriminate; auto.
+  apply andb_true_iff in Wl as [? ?]. apply andb_true_iff in Wm as [? ?]. inversion E. subst.
+  simpl in H1. f_equal; auto. f_equal; auto.
+Qed.
+
+Ltac kill_np := try match goal with E : _ = encode (VNp ?dd _) |- _ => destruct dd; discriminate end.
+
+Lemma encode_injective_wf : forall v w, wf v = true -> wf w = true -> encode v = encode w -> v = w.
+Proof.
+  induction v using val_ind2; intros w Wv Ww E.
+  - destruct w; try discriminate; kill_np; reflexivity.
+  - destruct w; try discriminate; kill_np; cbn in E; unfold at_ in E; inversion E; subst; reflexivity.
+  - destruct w; try discriminate; kill_np; cbn in E; unfold at_ in E; inversion E; subst; reflexivity.
+  - destruct w; try discriminate; kill_np; cbn in E; unfold at_ in E; inversion E; subst; reflexivity.
+  - destruct w; try discriminate; kill_np; cbn in E; unfold at_ in E; inversion E; subst; reflexivity.
+  - (* numpy scalar *)
+    destruct w as [| | | | |d' n'| |i' d' s' x'| | | | |]; try (destruct d; discriminate).
+    + destruct d, d'; cbn in E; unfold at_ in E; try discriminate; inversion E; subst; reflexivity.
+    + destruct d; destruct i'; discriminate.
+  - destruct w; try discriminate; kill_np; cbn in E; unfold at_ in E; inversion E; subst; reflexivity.
+  - (* array *)
+    destruct w as [| | | | |d' n'| |i' d' s' x'| | | | |]; try discriminate.
+    + destruct d'; destruct i; discriminate.
+    + destruct i, i'; cbn in E; unfold at_ in E; try discriminate; inversion E; subst; reflexivity.
+  - (* list *)
+    destruct w; try discriminate; kill_np.
+    cbn [encode] in E. inversion E as [E1]. rewrite !list_extend_nil in E1. apply tuple_fill_inj in E1.
+    f_equal. simpl in Wv, Ww. apply map_encode_inj; auto.
+  - (* tuple *)
+    destruct w; try discriminate; kill_np.
+    cbn [encode] in E. inversion E as [E1]. apply tuple_fill_inj in E1.
+    f_equal. simpl in Wv, Ww. apply map_encode_inj; auto.
+  - (* dict *)
+    destruct w; try discriminate; kill_np.
+    simpl in Wv, Ww. apply andb_true_iff in Wv as [N1 W1]. apply andb_true_iff in Ww as [N2 W2].
+    cbn [encode] in E. inversion E as [E1].
+    rewrite !dict_update_nil in E1 by (rewrite nodupb_smap; assumption).
+    f_equal. apply smap_encode_inj; auto.
+  - (* dataset *)
+    destruct w; try discriminate; kill_np.
+    simpl in Wv, Ww. apply andb_true_iff in Wv as [N1 W1]. apply andb_true_iff in Ww as [N2 W2].
+    cbn [encode] in E. inversion E as [E1]. f_equal. apply smap_encode_inj; auto.
+  - destruct w; try discriminate; kill_np; cbn in E; unfold at_ in E; inversion E; subst; reflexivity.
+Qed.
+
+(* ---------------------------------------------------------------- histories: worlds *)
+Section WorldLemmas.
+  Context {A : Type}.
+  Implicit Types w : list (list (name * A)).
+
+  Lemma length_set_nth : forall i s w, length (set_nth i s w) = length w.
+  Proof. induction i; destruct w; simpl; auto. Qed.
+
+  Lemma nth_set_nth_same : forall i s w, (i < length w)%nat -> nth i (set_nth i s w) [] = s.
+  Proof. induction i; destruct w; simpl; intro H; try lia; auto. apply IHi. lia. Qed.
+
+  Lemma nth_set_nth_other : forall i j s w, i <> j -> nth j (set_nth i s w) [] = nth j w [].
+  Proof.
+    induction i; destruct w; destruct j; simpl; intro H; auto; try congruence.
+  Qed.
+
+  Lemma nth_error_nth : forall w i s, nth_error w i = Some s -> nth i w [] = s /\ (i < length w)%nat.
+  Proof.
+    induction w; destruct i; simpl; intros s H; try discriminate.
+    - inversion H. split; auto. lia.
+    - apply IHw in H as [H1 H2]. split; auto. lia.
+  Qed.
+End WorldLemmas.
+
+Definition get {A} (w : list (list (name * A))) (i : nat) (k : name) : option A := lookup k (nth i w []).
+
+Definition target (o : op) : nat :=
+  match o with OSet i _ _ | OPut i _ _ | ODel i _ | OReopen i => i | OWrite _ j _ _ | OSnap _ j => j end.
+
+Definition memb (k : name) (keys : list name) : bool := existsb (name_eqb k) keys.
+
+Section StepLemmas.
+  Context {A : Type}.
+  Variable enc : val -> A.
+  Implicit Types w : list (list (name * A)).
+
+  Lemma readback_set_l : forall i k v w w', step enc (OSet i k v) w = (w', SOk) -> get w' i k = Some (enc v).
+  Proof.
+    intros i k v w w' H. simpl in H. destruct (nth_error w i) as [s|] eqn:E; try discriminate.
+    destruct (has k s) eqn:Hk; try discriminate. inversion H; subst. apply nth_error_nth in E as [E1 E2].
+    unfold get. rewrite nth_set_nth_same by auto. rewrite lookup_app.
+    unfold has in Hk. destruct (lookup k s); try discriminate. simpl. rewrite name_eqb_refl. reflexivity.
+  Qed.
+
+  Lemma set_err_unchanged_l : forall i k v w w', step enc (OSet i k v) w = (w', SErr) -> w' = w.
+  Proof.
+    intros i k v w w' H. simpl in H. destruct (nth_error w i) as [s|]; [destruct (has k s)|]; inversion H; auto.
+  Qed.
+
+  Lemma set_existing_rejected_l : forall i k v w s, nth_error w i = Some s -> has k s = true ->
+    step enc (OSet i k v) w = (w, SErr).
+  Proof. intros. simpl. rewrite H, H0. reflexivity. Qed.
+
+  Lemma readback_put_l : forall i k v w, (i < length w)%nat -> get (fst (step enc (OPut i k v) w)) i k = Some (enc v).
+  Proof.
+    intros i k v w H. simpl. destruct (nth_error w i) as [s|] eqn:E.
+    - simpl. unfold get. rewrite nth_set_nth_same by auto. apply lookup_put_same.
+    - apply nth_error_None in E. lia.
+  Qed.
+
+  Lemma readback_del_l : forall i k w w', step enc (ODel i k) w = (w', SOk) -> get w' i k = None.
+  Proof.
+    intros i k w w' H. simpl in H. destruct (nth_error w i) as [s|] eqn:E; try discriminate.
+    destruct (has k s); try discriminate. inversion H; subst. apply nth_error_nth in E as [E1 E2].
+    unfold get. rewrite nth_set_nth_same by auto. apply lookup_remove_same.
+  Qed.
+
+  Lemma frame_dataset_l : forall o w j, target o <> j -> nth j (fst (step enc o w)) [] = nth j w [].
+  Proof.
+    intros o w j H. destruct o; simpl in *.
+    - destruct (nth_error w i); [destruct (has k l)|]; simpl; auto. apply nth_set_nth_other; auto.
+    - destruct (nth_error w i); simpl; auto. apply nth_set_nth_other; auto.
+    - destruct (nth_error w i); [destruct (has k l)|]; simpl; auto. apply nth_set_nth_other; auto.
+    - destruct (nth_error w src); [destruct (nth_error w dst)|]; simpl; auto.
+      destruct (Nat.eqb src dst); simpl; auto.
+      destruct (copy_keys l l0 _ overwrite). simpl. apply nth_set_nth_other; auto.
+    - destruct (nth_error w src); [destruct (nth_error w dst)|]; simpl; auto. apply nth_set_nth_other; auto.
+    - destruct (nth_error w i); auto.
+  Qed.
+
+  Lemma frame_key_l : forall o w j k,
+    match o with
+    | OSet _ k' _ | OPut _ k' _ | ODel _ k' => k <> k'
+    | OReopen _ => True
+    | _ => False
+    end -> get (fst (step enc o w)) j k = get w j k.
+  Proof.
+    intros o w j k H. destruct (Nat.eq_dec (target o) j) as [T|T].
+    2:{ unfold get. rewrite frame_dataset_l; auto. }
+    destruct o; simpl in *; try contradiction; subst.
+    - destruct (nth_error w j) as [s|] eqn:E; auto. destruct (has k0 s); auto. simpl.
+      apply nth_error_nth in E as [E1 E2]. unfold get. rewrite nth_set_nth_same by auto. rewrite E1.
+      rewrite lookup_app. destruct (lookup k s); auto. simpl. rewrite name_eqb_neq; auto.
+    - destruct (nth_error w j) as [s|] eqn:E; auto. simpl.
+      apply nth_error_nth in E as [E1 E2]. unfold get. rewrite nth_set_nth_same by auto. rewrite E1.
+      apply lookup_put_other; auto.
+    - destruct (nth_error w j) as [s|] eqn:E; auto. destruct (has k0 s); auto. simpl.
+      apply nth_error_nth in E as [E1 E2]. unfold get. rewrite nth_set_nth_same by auto. rewrite E1.
+      apply lookup_remove_other; auto.
+    - destruct (nth_error w j); auto.
+  Qed.
+
+  Lemma copy_keys_lookup : forall keys (src dst d' : list (name * A)) ov k,
+    copy_keys src dst keys ov = (d', SOk) ->
+    lookup k d' = if memb k keys && (ov || negb (has k dst)) then lookup k src else lookup k dst.
+  Proof.
+    induction keys as [|k0 r IH]; intros src dst d' ov k H; simpl in H.
+    - inversion H. reflexivity.
+    - destruct (lookup k0 src) as [x|] eqn:Ex; try discriminate.
+      cbn [memb existsb]. fold (memb k r).
+      destruct (name_eqb k k0) eqn:E.
+      + apply name_eqb_eq in E. subst k0.
+        destruct (has k dst) eqn:Hd; [destruct ov|].
+        * rewrite (IH _ _ _ _ k H). rewrite lookup_put_same, Ex. cbn [orb andb negb].
+          destruct (memb k r && true); reflexivity.
+        * rewrite (IH _ _ _ _ k H). rewrite Hd. cbn [orb andb negb]. rewrite andb_false_r. reflexivity.
+        * rewrite (IH _ _ _ _ k H). rewrite has_snoc_same, lookup_snoc_same, Ex by auto.
+          cbn [orb andb negb]. rewrite orb_true_r.
+          destruct (memb k r && (ov || false)); reflexivity.
+      + assert (N : k <> k0) by (intro; subst; rewrite name_eqb_refl in E; discriminate).
+        destruct (has k0 dst) eqn:Hd; [destruct ov|].
+        * rewrite (IH _ _ _ _ k H). rewrite has_put_other, lookup_put_other by auto. reflexivity.
+        * rewrite (IH _ _ _ _ k H). reflexivity.
+        * rewrite (IH _ _ _ _ k H). rewrite has_snoc_other, lookup_snoc_other by auto. reflexivity.
+  Qed.
+
+  Definition eff_keys (keys : list name) (s : list (name * A)) : list name :=
+    match keys with [] => map fst s | _ => keys end.
+
+  Lemma readback_write_l : forall i j keys ov w w' k,
+    step enc (OWrite i j keys ov) w = (w', SOk) ->
+    get w' j k = if memb k (eff_keys keys (nth i w [])) && (ov || negb (has k (nth j w [])))
+                 then get w i k else get w j k.
+  Proof.
+    intros i j keys ov w w' k H. simpl in H.
+    destruct (nth_error w i) as [s|] eqn:Ei; try discriminate.
+    destruct (nth_error w j) as [d|] eqn:Ej; try discriminate.
+    destruct (Nat.eqb i j); try discriminate.
+    destruct (copy_keys s d _ ov) as [d' st] eqn:C. inversion H; subst.
+    apply nth_error_nth in Ei as [Ei1 Ei2]. apply nth_error_nth in Ej as [Ej1 Ej2].
+    unfold get. rewrite nth_set_nth_same by auto. rewrite Ei1, Ej1.
+    apply (copy_keys_lookup _ _ _ _ _ k C).
+  Qed.
+
+  Lemma readback_snap_l : forall i j w w', step enc (OSnap i j) w = (w', SOk) -> nth j w' [] = nth i w [].
+  Proof.
+    intros i j w w' H. simpl in H.
+    destruct (nth_error w i) as [s|] eqn:Ei; try discriminate.
+    destruct (nth_error w j) as [d|] eqn:Ej; try discriminate. inversion H; subst.
+    apply nth_error_nth in Ei as [Ei1 Ei2]. apply nth_error_nth in Ej as [Ej1 Ej2].
+    rewrite nth_set_nth_same by auto. auto.
+  Qed.
+
+  Lemma reopen_identity_l : forall i w, fst (step enc (OReopen i) w) = w.
+  Proof. intros. simpl. destruct (nth_error w i); auto. Qed.
+End StepLemmas.
+
+(* ---------------------------------------------------------------- naturality: trees = encode (values) *)
+Section Natural.
+  Context {A B : Type}.
+  Variable g : val -> A.
+  Variable f : A -> B.
+  Let fg := fun v => f (g v).
+
+  Lemma nth_error_wmap : forall (w : list (list (name * A))) i,
+    nth_error (wmap f w) i = option_map (smap f) (nth_error w i).
+  Proof. intros. unfold wmap. apply nth_error_map. Qed.
+
+  Lemma set_nth_wmap : forall i s (w : list (list (name * A))),
+    set_nth i (smap f s) (wmap f w) = wmap f (set_nth i s w).
+  Proof. induction i; destruct w; simpl; auto. f_equal. apply IHi. Qed.
+
+  Lemma map_fst_smap : forall (s : list (name * A)), map fst (smap f s) = map fst s.
+  Proof. intros. unfold smap. rewrite map_map. reflexivity. Qed.
+
+  Lemma copy_keys_natural : forall keys (s d : list (name * A)) ov,
+    copy_keys (smap f s) (smap f d) keys ov =
+    (smap f (fst (copy_keys s d keys ov)), snd (copy_keys s d keys ov)).
+  Proof.
+    induction keys as [|k r IH]; intros s d ov; simpl; auto.
+    rewrite lookup_smap. destruct (lookup k s) as [x|]; simpl; auto.
+    rewrite has_smap. destruct (has k d); [destruct ov|].
+    - rewrite put_smap. apply IH.
+    - apply IH.
+    - change [(k, f x)] with (smap f [(k, x)]). rewrite <- smap_app. apply IH.
+  Qed.
+
+  Lemma step_natural : forall o (w : list (list (name * A))),
+    step fg o (wmap f w) = (wmap f (fst (step g o w)), snd (step g o w)).
+  Proof.
+    intros o w. destruct o; simpl; rewrite ?nth_error_wmap.
+    - destruct (nth_error w i) as [s|]; simpl; auto. rewrite has_smap. destruct (has k s); simpl; auto.
+      unfold fg. change [(k, f (g v))] with (smap f [(k, g v)]). rewrite <- smap_app, set_nth_wmap. reflexivity.
+    - destruct (nth_error w i) as [s|]; simpl; auto. unfold fg. rewrite put_smap, set_nth_wmap. reflexivity.
+    - destruct (nth_error w i) as [s|]; simpl; auto. rewrite has_smap. destruct (has k s); simpl; auto.
+      rewrite remove_smap, set_nth_wmap. reflexivity.
+    - destruct (nth_error w src) as [s|]; simpl; auto.
+      destruct (nth_error w dst) as [d|]; simpl; auto.
+      destruct (Nat.eqb src dst); simpl; auto.
+      assert (K : match keys with [] => map fst (smap f s) | _ :: _ => keys end =
+                  match keys with [] => map fst s | _ :: _ => keys end).
+      { destruct keys; auto. apply map_fst_smap. }
+      rewrite K. rewrite copy_keys_natural.
+      destruct (copy_keys s d _ overwrite) as [d' st]. simpl. rewrite set_nth_wmap. reflexivity.
+    - destruct (nth_error w src) as [s|]; simpl; auto.
+      destruct (nth_error w dst) as [d|]; simpl; auto. rewrite set_nth_wmap. reflexivity.
+    - destruct (nth_error w i); simpl; auto.
+  Qed.
+
+  Lemma run_natural : forall h (w : list (list (name * A))),
+    run fg h (wmap f w) = (wmap f (fst (run g h w)), snd (run g h w)).
+  Proof.
+    induction h as [|o r IH]; intro w; simpl; auto.
+    rewrite step_natural. destruct (step g o w) as [w1 s]. simpl.
+    rewrite IH. destruct (run g r w1) as [w2 ss]. reflexivity.
+  Qed.
+End Natural.
+
+Definition vid (v : val) : val := v.
+
+Lemma wmap_empty : forall {A B} (f : A -> B) n, wmap f (empty_world n) = empty_world n.
+Proof. intros. unfold empty_world, wmap. induction n; simpl; auto. f_equal. auto. Qed.
+
+(* the tree-level execution of any history is the encoding of the value-level execution *)
+Lemma history_refines : forall h n,
+  run encode h (empty_world n) = (wmap encode (fst (run vid h (empty_world n))), snd (run vid h (empty_world n))).
+Proof.
+  intros h n. rewrite <- (wmap_empty encode n) at 1.
+  exact (run_natural vid encode h (empty_world n)).
+Qed.
+
+(* ---------------------------------------------------------------- well-formedness is an invariant *)
+Definition wf_store (s : list (name * val)) : Prop := Forall (fun kv => wf (snd kv) = true) s.
+Definition wf_world (w : list (list (name * val))) : Prop := Forall wf_store w.
+Definition wf_op (o : op) : Prop :=
+  match o with OSet _ _ v | OPut _ _ v => wf v = true | _ => True end.
+
+Lemma wf_remove : forall k s, wf_store s -> wf_store (remove k s).
+Proof.
+  intros k s H. induction H as [|[k' x] r H1 H2 IH]; simpl; [constructor|].
+  destruct (name_eqb k k'); auto. constructor; auto.
+Qed.
+
+Lemma wf_snoc : forall k v s, wf_store s -> wf v = true -> wf_store (s ++ [(k, v)]).
+Proof. intros. apply Forall_app. split; auto. Qed.
+
+Lemma wf_put : forall k v s, wf_store s -> wf v = true -> wf_store (put k v s).
+Proof. intros. unfold put. apply wf_snoc; auto. apply wf_remove; auto. Qed.
+
+Lemma wf_lookup : forall k s v, wf_store s -> lookup k s = Some v -> wf v = true.
+Proof.
+  intros k s v H. induction H as [|[k' x] r H1 H2 IH]; simpl; try discriminate.
+  destruct (name_eqb k k'); auto. intro E. inversion E; subst. exact H1.
+Qed.
+
+Lemma wf_copy_keys : forall keys s d ov, wf_store s -> wf_store d -> wf_store (fst (copy_keys s d keys ov)).
+Proof.
+  induction keys as [|k r IH]; intros s d ov Hs Hd; simpl; auto.
+  destruct (lookup k s) as [x|] eqn:E; simpl; auto.
+  pose proof (wf_lookup _ _ _ Hs E) as Wx.
+  destruct (has k d); [destruct ov|]; apply IH; auto.
+  - apply wf_put; auto.
+  - apply wf_snoc; auto.
+Qed.
+
+Lemma wf_set_nth : forall i s w, wf_world w -> wf_store s -> wf_world (set_nth i s w).
+Proof.
+  induction i; intros s w Hw Hs; destruct w; simpl; auto; inversion Hw; subst; constructor; auto.
+  apply IHi; auto.
+Qed.
+
+Lemma wf_nth_error : forall w i s, wf_world w -> nth_error w i = Some s -> wf_store s.
+Proof. intros w i s Hw E. apply nth_error_In in E. unfold wf_world in Hw. rewrite Forall_forall in Hw. auto. Qed.
+
+Lemma wf_step : forall o w, wf_op o -> wf_world w -> wf_world (fst (step vid o w)).
+Proof.
+  intros o w Ho Hw. destruct o; simpl in *.
+  - destruct (nth_error w i) as [s|] eqn:E; auto. destruct (has k s); auto. simpl.
+    apply wf_set_nth; auto. apply wf_snoc; auto. eapply wf_nth_error; eauto.
+  - destruct (nth_error w i) as [s|] eqn:E; auto. simpl.
+    apply wf_set_nth; auto. apply wf_put; auto. eapply wf_nth_error; eauto.
+  - destruct (nth_error w i) as [s|] eqn:E; auto. destruct (has k s); auto. simpl.
+    apply wf_set_nth; auto. apply wf_remove. eapply wf_nth_error; eauto.
+  - destruct (nth_error w src) as [s|] eqn:E; auto. destruct (nth_error w dst) as [d|] eqn:F; auto.
+    destruct (Nat.eqb src dst); auto.
+    pose proof (wf_copy_keys (match keys with [] => map fst s | _ :: _ => keys end) s d overwrite
+                  (wf_nth_error _ _ _ Hw E) (wf_nth_error _ _ _ Hw F)) as C.
+    destruct (copy_keys s d _ overwrite) as [d' st]. simpl in *. apply wf_set_nth; auto.
+  - destruct (nth_error w src) as [s|] eqn:E; auto. destruct (nth_error w dst) as [d|] eqn:F; auto.
+    simpl. apply wf_set_nth; auto. eapply wf_nth_error; eauto.
+  - destruct (nth_error w i); auto.
+Qed.
+
+Lemma wf_run : forall h w, Forall wf_op h -> wf_world w -> wf_world (fst (run vid h w)).
+Proof.
+  induction h as [|o r IH]; intros w Hh Hw; simpl; auto.
+  inversion Hh; subst. pose proof (wf_step o w H1 Hw) as S1.
+  destruct (step vid o w) as [w1 s]. simpl in S1. specialize (IH w1 H2 S1).
+  destruct (run vid r w1) as [w2 ss]. exact IH.
+Qed.
+
+Lemma wf_empty : forall n, wf_world (empty_world n).
+Proof. intro n. unfold wf_world, empty_world. induction n; simpl; constructor; auto. constructor. Qed.
+
+Lemma nth_wmap : forall {A B} (f : A -> B) (w : list (list (name * A))) i,
+  nth i (wmap f w) [] = smap f (nth i w []).
+Proof. intros. unfold wmap. change (@nil (name * B)) with (smap f (@nil (name * A))). apply map_nth. Qed.
+
+Lemma wf_nth : forall w i, wf_world w -> wf_store (nth i w []).
+Proof.
+  induction w; destruct i; simpl; intro H; try constructor; inversion H; subst; auto.
+Qed.
+
+(* after ANY history of well-formed writes, every attribute of every dataset reads back (through the
+   tree and the decoder) as the round-trip image of the value the last-write-wins store holds *)
+Lemma history_readback_l : forall h n i k, Forall wf_op h ->
+  read_tree (fst (run encode h (empty_world n))) i k =
+  option_map norm (get (fst (run vid h (empty_world n))) i k).
+Proof.
+  intros h n i k Hh. rewrite history_refines. simpl. unfold read_tree, get.
+  rewrite nth_wmap, lookup_smap.
+  pose proof (wf_nth _ i (wf_run h _ Hh (wf_empty n))) as W.
+  destruct (lookup k (nth i (fst (run vid h (empty_world n))) [])) as [v|] eqn:E; simpl; auto.
+  apply decode_encode_wf. eapply wf_lookup; eauto.
+Qed.
+
+Lemma value_preserved_l : forall v, wf v = true -> exists v', decode (encode v) = Some v' /\ pyview v' = pyview v.
+Proof. intros v W. exists (norm v). split; [apply decode_encode_wf; auto | apply pyview_norm]. Qed.
+
+(* a value that has been read back twice is a fixed point of write/read *)
+Lemma reread_fixpoint_l : forall v, wf v = true -> decode (encode (norm (norm v))) = Some (norm (norm v)).
+Proof. intros v W. rewrite decode_encode_wf by (apply wf_norm, wf_norm, W). f_equal. apply norm_stable. Qed.
